@@ -204,8 +204,8 @@ def judge_upd(chk, c, im, mo):
     for k, (a, b) in enumerate(zip(im["mean"], m_mean)):
         ok = (F(a) == b) if (exact and f32_exact(b)) else abs(F(a) - b) <= Fraction(1, 10 ** 5) * (abs(b) + 1)
         if not ok:
-            chk.violation("cem-update:mean", f"updated mean[{k}] = {a!r} differs from the model's {float(b)!r}: the elite set is not "
-                          f"the {c['ne']} smallest cleaned losses in stable order (model elites {m_el})", case); return
+            chk.violation("cem-update:mean", f"updated mean[{k}] = {a!r} differs from the model's {float(b)!r} = "
+                          f"s*old + (1-s)*mean of the {c['ne']} candidates with the smallest cleaned losses in stable order (model elites {m_el})", case); return
     for k, (a, v) in enumerate(zip(im["stdev"], m_var)):
         want = float(s) * float(c["st"]["stdev"][k]) + (1 - float(s)) * math.sqrt(float(v))
         if abs(a - want) > 2e-5 * (abs(want) + 1):
@@ -444,6 +444,7 @@ def run(chk, replay=None):
     big = chk.tier != "quick"
     rp = json.load(open(replay)) if replay else None
     rkind = rp["case"].get("kind") if rp else None
+    if rkind not in ("update", "cem", "evo") or "gen" not in rp["case"]: rp = rkind = None     # not replayable alone: full run
 
     # ---- (A)
     n_upd = 0 if (rp and rkind != "update") else (150 if not big else 1500)
@@ -511,6 +512,10 @@ def run(chk, replay=None):
             for (X, L), rl in zip(calls, ret):
                 if not onp.array_equal(L, onp.asarray(rl), equal_nan=True):
                     chk.violation("cem-returned-losses-differ", "the losses returned by cem/cem_step are not the evaluated ones", case)
+            nanbl = next((i for i, s1 in enumerate(states) if math.isnan(s1["bl"]) or any(math.isnan(v) for v in s1["best"])), None)
+            if nanbl is not None:
+                chk.violation("cem-history:best-is-nan", f"cem: the reported best (candidate, loss) after {nanbl} iteration(s) is "
+                              f"({states[nanbl]['best']}, {states[nanbl]['bl']!r})", dict(case, iteration=nanbl)); continue
             if c["mode"] == "step":
                 iters = [iter_term(X, L, s1["best"], s1["bl"]) for (X, L), s1 in zip(calls, states[1:])]
                 data = [(X, L, s1["best"], s1["bl"]) for (X, L), s1 in zip(calls, states[1:])]
@@ -531,6 +536,8 @@ def run(chk, replay=None):
     if not rp or rkind == "evo":
         strategies = (RANK_BASED[:3] + VALUE_BASED[:1]) if not big else (RANK_BASED + VALUE_BASED)
         ecases = [gen_evo(r, s_, big) for s_ in strategies for _ in range(2 if not big else 5)]
+        for c in ecases:      # every strategy sees at least one loss that returns NaN / inf for some members of (almost) every generation
+            if c is next(x for x in ecases if x["strategy"] == c["strategy"]): c["kind"] = "scripted"; c["mode"] = "step"; c["steps"] = max(3, c["steps"])
         if rp: ecases = [eval(rp["case"]["gen"], dict(Fraction=Fraction))]
         for c in ecases:
             case = dict(kind="evo", gen=repr(c))
@@ -556,6 +563,10 @@ def run(chk, replay=None):
                               f"population of generation {i} contains NaN candidates (outside the bounds); every later loss is NaN",
                               dict(case, generation=i, first_candidate=[float(v) for v in X[0]]))
                 continue
+            nanbl = next((i for i, s1 in enumerate(states) if math.isnan(s1["bl"]) or any(math.isnan(v) for v in s1["best"])), None)
+            if nanbl is not None:
+                chk.violation("evo-history:best-is-nan", f"evo: the reported best (member, fitness) after {nanbl} generation(s) is "
+                              f"({states[nanbl]['best']}, {states[nanbl]['bl']!r})", dict(case, iteration=nanbl)); continue
             if c["mode"] == "step":
                 iters = [iter_term(X, L, s1["best"], s1["bl"]) for (X, L), s1 in zip(calls, states[1:])]
                 data = [(X, L, s1["best"], s1["bl"]) for (X, L), s1 in zip(calls, states[1:])]
